@@ -28,6 +28,7 @@ _THEOREMS = [
     "Zrnt.Proofs.C12.att_violated_never_accept_partial",
     "Zrnt.Proofs.C12.att_accepts_non_checkpoint_target",
     "Zrnt.Proofs.C12.att_deneb_window_differs",
+    "Zrnt.Proofs.C12.att_deneb_window_drops_honest",
     "Zrnt.Proofs.C12.selCheck_cases",
     "Zrnt.Proofs.C12.agg_marks_only_on_accept",
     "Zrnt.Proofs.C12.agg_timing_failures_ignore",
